@@ -1,21 +1,29 @@
 """C13 — local recipients are accepted exactly when the vpopmail mailbox exists
 (qsmtpd/backends/user_vpopm/vpop.c: user_exists, qmexists, vget_dir; lib/cdb.c)."""
 import runlib as R
+import c13_cdbgen
 
 ID = 'C13'
 COQ_TARGETS = ['Props/Properties_C13.vo']
 PROPS_FILES = ['Props/Properties_C13.v']
 THEOREMS = ['C13_exists', 'C13_exact', 'C13_confined', 'C13_bounce_line', 'C13_checker_sound', 'C13_model_passes_checker',
-            'C13_reply', 'C13_reply_exact', 'C13_model_passes_rcpt_checker']
+            'C13_reply', 'C13_reply_exact', 'C13_model_passes_rcpt_checker',
+            'C13_cdb_safe', 'C13_cdb_terminates', 'C13_vget_safe', 'C13_cdb_lookup', 'C13_cdb_make_wf', 'C13_vget_found',
+            'C13_exists_file', 'C13_confined_file', 'C13_ds_outcome', 'C13_ds_no_leak', 'C13_ds_ok', 'C13_reply_literal']
 SHRINK_FROM = 3      # keep users/cdb and the domain of a failing case, shrink layout / bounce / local part / tail
 ENGINES = [dict(name='vpop', c_sources=['vpop_h.c'], extract='Extract/Extract_vpop.v', driver='vpop_driver.ml',
-                glue=('glue.ml', 'glue_z.ml'), accepts=lambda c: c.startswith('c1 ') or c.startswith('c2 '))]
-RULE = ('c1 cases = user_exists() on (users/cdb records, domain, domain directory layout, control/vpopbounce, local part, bytes following the local '
+                glue=('glue.ml', 'glue_z.ml'), accepts=lambda c: c[:3] in ('c1 ', 'c2 ', 'c3 ', 'c4 ')),
+           dict(name='cdb', c_sources=['cdb_h.c'], extract='Extract/Extract_cdb.v', driver='cdb_driver.ml',
+                glue=('glue.ml', 'glue_z.ml'), accepts=lambda c: c[:3] in ('d1 ', 'd2 ', 'a1 '))]
+RULE = ('engine vpop: c1 cases = user_exists() on (users/cdb records, domain, domain directory layout, control/vpopbounce, local part, bytes following the local '
         'part in memory); layouts are derived from the local part: each documented form present / absent / present only under a '
         'near-miss name (dots not mapped, prefix cut one byte early or late, prefix reaching into the domain) / failing with an '
         'injected errno; local parts: plain, with dots and dashes, ".", "..", with "/", quoted, lengths 239..257 around NAME_MAX; '
         'c2 cases (a quarter) = the real addrparse() on RCPT TO:<local@domain> with unquoted local parts in mixed case over the same kind of tree; '
-        'non-trivial = accepted, or at least three names were looked up; distinct by case text')
+        'c3 = sequences of user_exists() calls on one struct userconf (descriptor accounting); c4 = RCPT TO:<local@[ip]> with the literal equal / unequal to the local address, IPv4 and tagged IPv6; '
+        'engine cdb: d1 = cdb_seekmm() / d2 = vget_dir() on raw file bytes under a mapping that ends at PROT_NONE address space: valid databases (colliding hashes, duplicate keys, keys with NUL, empty keys), '
+        'a deterministic sweep that sets every 32 bit field the lookup touches (table pointer, slot count, slot hash, record pointer, key / data length) to every boundary value and cuts the file at every structure boundary +-1, random mutations; a1 = Gallina cdb_make against a C cdbmake, every key looked up; '
+        'non-trivial = accepted, or at least three names were looked up (vpop) / found, EINVAL, a path or an error (cdb); distinct by case text')
 TRUSTED_BASE = [
     'Coq 8.16.1 kernel (coqc; coqchk in thorough); vm_compute only for facts about the generated constant lists and the non-vacuity example',
     'axioms: none (Print Assumptions: Closed under the global context)',
@@ -23,13 +31,15 @@ TRUSTED_BASE = [
     'hand-written model coq/Model/Vpop.v tied to vpop.c by the correspondence run (differential testing, bounded by the generator)',
     'file system abstraction: one lookup relative to the domain directory depends only on the name (fs : name -> entry); fs_of_layout (".", ".." are directories, "" is ENOENT, > NAME_MAX is ENAMETOOLONG) is checked against the real kernel by the correspondence run',
     'extraction with ExtrOcamlBasic only; ocaml/glue.ml, glue_z.ml, vpop_driver.ml (case parsing / printing)',
+    'C harness harness/cdb_h.c: #include of lib/cdb.c and vpop.c with mmap()/munmap() redirected to a private copy of the file that ends at a page boundary followed by > 4 GiB of PROT_NONE address space; a C cdbmake for a1',
     'C harness harness/vpop_h.c: #include of vpop.c, getfile.c, cdb.c, control.c, mmap.c, dns_helpers.c, addrsyntax.c, addrparse.c; tarpit()/net_writen()/netnwrite() replaced by recorders; openat()/open() inside vpop.c redirected by macro (logging, errno injection); err_control()/err_control2() return 0; cdb file written by the harness; gcc 12 -O1 ASan+UBSan vs. production build',
 ]
 ASSUMPTIONS = [
     'the local part and the domain contain no NUL (both come from strlen-delimited strings in addrparse)',
     'err_control()/err_control2() return 0 (the 421 line could be written), so hard lookup failures return -EDONE',
     'a fresh struct userconf per call (smtp_rcpt calls userconf_init before addrparse)',
-    'lib/cdb.c is exercised (real cdb files) but not modelled: the model takes the record list; hash collisions and malformed cdb files are outside the theorem',
+    'users/cdb: C13_exists is stated for the record list (oracle) and, as C13_exists_file, for the bytes of the file (well-formed constant database, Spec/CdbSpec.v); mmap()/munmap()/fstat()/open() themselves are outside the model (an mmap failure is an errno path that is not modelled); the mapping is exactly st_size bytes (stricter than the kernel, which pads the last page with zeros)',
+    'keys are 7 bit (domains): cdb_hash() takes plain char and differs from the file format for bytes >= 128',
     'read() on .qmail-default returns min(2*strlen(vpopbounce), size) bytes in one call',
     'C13_reply: the address is one addrsyntax() accepts as full address (result 3) and its domain is in rcpthosts; addrsyntax()/finddomain() themselves belong to C14/C16 and are only exercised here (unquoted local parts)',
 ]
@@ -199,9 +209,66 @@ def gen_rcpt(rng):
     return case(recs, randcase(rng, dom), gen_layout(rng, local.lower(), b'@' + dom, bounce), bounce, local, b'').replace('c1 ', 'c2 ', 1)
 
 
+def gen_seq(rng):
+    """c3: several user_exists() calls on one struct userconf (the global cache of MAIL FROM): same domain again, a domain
+    with the same / another directory, unknown domains, absent users in between (userconf_free() resets the structure)"""
+    doms = [d for d in DOMS if rng.random() < 0.7] or [DOMS[0]]
+    recs = [(rng.choice('dddDDmf'), d) for d in doms]
+    bounce = rng.choice([None, b'/bounce\n'])
+    users = [b'user', b'u2', b'abs-ent', b'nobody', b'baz-x', b'..', b'a/b']
+    layout = [('d', b'user'), ('d', b'u2'), ('f', b'.qmail-baz-default', b'')]
+    if rng.random() < 0.5:
+        layout.append(('f', b'.qmail-default', rng.choice([b'/bounce\n', b'|x\n'])))
+    if rng.random() < 0.2:
+        layout.append(('e', b'nobody', rng.choice([5, 13, 24])))
+    k = rng.randrange(1, 12)
+    ds = [rng.choice(doms + [b'unknown.example']) for _ in range(k)]
+    ls = [rng.choice(users) for _ in range(k)]
+    enc = lambda xs: b''.join(bytes([len(x)]) + x for x in xs)
+    return ' '.join(['c3', R.hx(cdb(recs)), R.hx(enc(ds)), R.hx(lay(layout)), R.hx(b'' if bounce is None else b'b' + bounce), R.hx(enc(ls)), '-'])
+
+
+V6 = [(b'::1', b'IPv6:::1'), (b'fe80::a', b'IPv6:fe80::A'), (b'fe80::a', b'IPv6:FE80::a'), (b'2001:db8::1', b'IPv6:2001:DB8::1'),
+      (b'2001:db8::1', b'IPv6:2001:db8::1'), (b'::ffff:10.0.0.1', b'IPv6:::ffff:10.0.0.1')]
+
+
+def gen_literal(rng):
+    """c4: RCPT TO:<local@[ip]>: the literal is / is not the local address of the connection; liphost in users/cdb or not"""
+    liphost = rng.choice([d for d in DOMS if d != b'x.y'])
+    for _ in range(50):
+        local = gen_local(rng)
+        if local and all(c in UNQUOTED for c in local):
+            break
+    else:
+        local = b'user'
+    local = randcase(rng, local)
+    k = rng.random()
+    if k < 0.4:
+        ip = b'%d.%d.%d.%d' % tuple(rng.choice([0, 1, 10, 127, 192, 255]) for _ in range(4))
+        localip, iptext = ip, ip
+    elif k < 0.6:
+        localip = b'10.0.0.1'
+        iptext = rng.choice([b'10.0.0.2', b'10.0.0.10', b'10.0.0.', b'1.0.0.1', b'10.0.0.11', b'110.0.0.1'])
+        if iptext.endswith(b'.'):
+            iptext += b'1'
+    elif k < 0.9:
+        localip, iptext = rng.choice(V6)
+        if rng.random() < 0.3:
+            localip = rng.choice(V6)[0]
+    else:
+        localip, iptext = b'::ffff:10.0.0.1', b'10.0.0.1'
+    recs = [(rng.choice('dDmf'), d) for d in DOMS if d != liphost and rng.random() < 0.3]
+    if rng.random() < 0.85:
+        recs.append((rng.choice('ddddDmf'), liphost))
+    bounce = rng.choice([None, b'/bounce\n'])
+    return case(recs, liphost, gen_layout(rng, local.lower(), b'@[' + iptext.lower() + b']', bounce), bounce, local, localip + b'\0' + iptext).replace('c1 ', 'c4 ', 1)
+
+
 def gen_cases(engine, rng, tier):
+    if engine == 'cdb':
+        return c13_cdbgen.gen_cases(rng, tier)
     n = 2200 if tier == 'quick' else 40000
-    out = [gen_rcpt(rng) for _ in range(n // 4)]
+    out = [gen_rcpt(rng) for _ in range(n // 4)] + [gen_seq(rng) for _ in range(n // 8)] + [gen_literal(rng) for _ in range(n // 10)]
     for i in range(n):
         dom = rng.choice(DOMS)
         local = gen_local(rng)
@@ -234,8 +301,12 @@ def _rc(c_out):
 
 
 def nontrivial(case, c_out):
+    if case[:3] in ('d1 ', 'd2 ', 'a1 '):
+        return c_out.startswith('F ') or c_out.startswith('1 ') or c_out.startswith('N 22') or c_out.startswith('-') or case.startswith('a1 ')
     r = _rc(c_out)
-    if case.startswith('c2 '):
+    if case.startswith('c3 '):
+        return ',' in c_out
+    if case.startswith('c2 ') or case.startswith('c4 '):
         return r is not None and len(c_out.split()) >= 4
     return r is not None and ((r > 0 and r != 5) or len(c_out.split()) >= 5)
 
@@ -243,9 +314,24 @@ def nontrivial(case, c_out):
 def distribution(results):
     d = {}
     for r in results:
+        op = r['case'][:2]
+        if op in ('d1', 'd2', 'a1'):
+            w = r['c'].split()
+            if op == 'd1':
+                k = 'cdb_seek_' + ('found' if w[:1] == ['F'] else 'einval' if w == ['N', '22'] else 'notfound' if w == ['N', '0'] else 'other')
+            elif op == 'd2':
+                k = 'cdb_vget_' + ('path' if w[:1] == ['1'] else 'notfound' if w[:1] == ['0'] else 'error' if w and w[0].startswith('-') else 'other')
+            else:
+                k = 'cdb_make'
+            d[k] = d.get(k, 0) + 1
+            continue
         rc = _rc(r['c'])
         k = 'crash' if rc is None else ('rc%d' % rc if rc >= 0 else 'error')
-        if r['case'].startswith('c2 '):
+        if r['case'].startswith('c3 '):
+            k = 'reuse_sequences'
+        elif r['case'].startswith('c4 '):
+            k = 'literal_' + ('crash' if rc is None else {0: 'accepted', -1: 'refused550'}.get(rc, 'error'))
+        elif r['case'].startswith('c2 '):
             k = 'rcpt_' + ('crash' if rc is None else {0: 'accepted', -1: 'refused550'}.get(rc, 'error'))
         d[k] = d.get(k, 0) + 1
         f = r['case'].split()
@@ -261,9 +347,9 @@ LEVEL_TEXT = ('Machine-checked Coq theorems over an executable model of user_exi
               'for every function from names to directory entries, every vpopbounce setting and every local part: the result is positive only if '
               'one of the five documented forms exists (1 / 4 / 2 by form), 0 only if none does, negative only if a lookup failed for another '
               'reason than non-existence; every name opened relative to the domain directory is a single component other than "." and "..", and '
-              'the user directory handle is an entry of the domain directory; addrparse() answers 0 with "550 5.1.1 ..." and accepts anything positive.  Literals, flags, return codes and errno classes are regenerated '
+              'the user directory handle is an entry of the domain directory; cdb_seekmm()/vget_dir() never read outside the mapping for any file content and return the first record of a key on well-formed databases (so C13_exists also holds with users/cdb as bytes); a reused struct userconf gives the same answers and loses no descriptor; addrparse() answers 0 with "550 5.1.1 ..." and accepts anything positive.  Literals, flags, return codes and errno classes are regenerated '
               'from vpop.c on every run; the model is tied to the C by a differential run on real directory trees under ASan.')
 LEVEL_NOTE = ('Trusted: Coq kernel, translator regexes, extraction (ExtrOcamlBasic), harness, generator quality of the correspondence run, the '
               'name->entry abstraction of the kernel. lib/cdb.c and the mapping of the result to "550 5.1.1" in addrparse.c are exercised / read, not modelled.')
-TECHNIQUE = 'Coq proof by case analysis over the probe sequence + induction over the dash scan; translator-regenerated constants; model-vs-C differential run on real directory trees with logged openat()'
+TECHNIQUE = 'Coq proof by case analysis over the probe sequence + induction over the dash scan; cdb: literal model over an arbitrary byte list, safety by bounds invariants, lookup correctness from a structural well-formedness predicate (probe chains), cdb_make proved well-formed by an insertion invariant; translator-regenerated constants; model-vs-C differential run on real directory trees with logged openat()'
 DESIGN_REF = 'DESIGN.md section 5, C13'
